@@ -762,6 +762,13 @@ impl Ty {
                 // println!("  {:?} as {:?}", other, resolved_arena[distinct]);
                 other.is_functionally_equivalent_to(variant_inner, self_can_lose_distinction)
             }
+            // two different named structs are never equivalent, whatever their members
+            (
+                Ty::ConcreteStruct { uid: first_uid, .. },
+                Ty::ConcreteStruct {
+                    uid: second_uid, ..
+                },
+            ) if first_uid != second_uid => false,
             (
                 Ty::ConcreteStruct {
                     members: first_members,
